@@ -10,6 +10,7 @@ mod jsonfmt;
 mod locks;
 mod sched;
 mod session;
+mod solar;
 mod util;
 mod uvalue;
 
@@ -65,6 +66,7 @@ fn main() {
         "convert" => convert::main_convert(&args),
         "uvalue" => uvalue::main_uvalue(&args),
         "classify" => classify::main_classify(&args),
+        "solar" => solar::main_solar(&args),
         "jsonfmt" => jsonfmt::main_jsonfmt(&args),
         "bdlparse" => bdlparse::main_bdlparse(&args),
         "faults" => faults::main_faults(&args),
